@@ -36,6 +36,10 @@ More information:
 'GR1601101050000010547023795'
 >>> validate('BE31435411161155')
 'BE31435411161155'
+>>> validate('NL99INGB0001234600')  # 99 is never generated (should be 02)
+Traceback (most recent call last):
+    ...
+InvalidChecksum: ...
 >>> compact('GR16 0110 1050 0000 1054 7023 795')
 'GR1601101050000010547023795'
 >>> format('GR1601101050000010547023795')
